@@ -69,6 +69,7 @@ type cOp struct {
 	Repeat int      `json:"repeat,omitempty"` // number of polls that return the batch (0 = until replaced)
 	Items  []cItem  `json:"items,omitempty"`
 	D      int64    `json:"d,omitempty"` // sleep, ns
+	Cancel int      `json:"cancel,omitempty"` // plug-in report calls: the call's context is cancelled right after the k-th upkeep was handled
 }
 
 type cCase struct {
@@ -133,6 +134,7 @@ type world struct {
 	hist   []string
 	logger *log.Logger
 	gate   *gateWriter
+	lines  lineHook
 }
 
 func (w *world) rel() int64 { return int64(time.Since(w.t0)) }
@@ -201,6 +203,7 @@ func (w *world) start() {
 	if c.Plugin {
 		w.node = NewNode(w.t, NodeOpts{
 			Offchain: fmt.Sprintf(`{"performLockoutWindow":%d,"minConfirmations":%d}`, c.WindowMs, c.MinConf), N: 4, F: 1,
+			LogW: &w.lines,
 		})
 	}
 	synctest.Wait()
@@ -215,6 +218,32 @@ func (w *world) stop() {
 		w.node = nil
 	}
 	synctest.Wait()
+}
+
+// lineHook is the plug-in's log sink: it counts the per-upkeep lines of the report-level calls and cancels the
+// armed context after the k-th.
+type lineHook struct {
+	mu     sync.Mutex
+	k, n   int
+	cancel context.CancelFunc
+}
+
+func (l *lineHook) arm(k int, cancel context.CancelFunc) {
+	l.mu.Lock()
+	l.k, l.n, l.cancel = k, 0, cancel
+	l.mu.Unlock()
+}
+
+func (l *lineHook) Write(p []byte) (int, error) {
+	if bytes.Contains(p, []byte("checking shouldAccept of upkeep")) || bytes.Contains(p, []byte("checking transmit of upkeep")) {
+		l.mu.Lock()
+		l.n++
+		if l.k > 0 && l.n == l.k && l.cancel != nil {
+			l.cancel()
+		}
+		l.mu.Unlock()
+	}
+	return len(p), nil
 }
 
 // settle makes sure no poll/GC tick is due at this very instant before an operation is issued.
@@ -341,14 +370,24 @@ func (w *world) doOp(op cOp) {
 		}
 		pr := any
 		if w.node != nil {
+			// the context of the call may be cancelled while the call is under way (libocr's deadline for the
+			// function passing, the node shutting down): right after the op.Cancel-th upkeep was handled.  Whatever
+			// the call then answers, a report is accepted / offered as a whole exactly when one of its upkeeps is.
+			ctx, cancel := context.WithCancel(context.Background())
+			w.lines.arm(op.Cancel, cancel)
 			var err error
 			if op.Kind == "acceptrep" {
-				pr, err = w.node.Plugin.ShouldAcceptAttestedReport(context.Background(), 1, w.report(ups))
+				pr, err = w.node.Plugin.ShouldAcceptAttestedReport(ctx, 1, w.report(ups))
 			} else {
-				pr, err = w.node.Plugin.ShouldTransmitAcceptedReport(context.Background(), 1, w.report(ups))
+				pr, err = w.node.Plugin.ShouldTransmitAcceptedReport(ctx, 1, w.report(ups))
 			}
+			w.lines.arm(0, nil)
+			cancel()
 			if err != nil {
-				w.t.Fatalf("plug-in report call: %v", err)
+				if op.Cancel == 0 {
+					w.t.Fatalf("plug-in report call: %v", err)
+				}
+				pr = false // an error answer is "not accepted / not to be transmitted"
 			}
 		}
 		name := map[string]string{"acceptrep": "OAcceptRep", "transmitrep": "OTransmitRep"}[op.Kind]
@@ -835,6 +874,14 @@ func boundary() []cCase {
 		cs = append(cs, cCase{Family: "hook-limit-many-proposals", WindowMs: 20000, MinConf: 1, Ws: many, Ops: []cOp{
 			acc(w, 10), flt("hookprop", manyItems...), evs(1, ev(w, 70+w, 1, 10, 11, 1)), sl(2 * sec), flt("hookprop", manyItems...)}})
 	}
+	{
+		cx := func(k int, o cOp) cOp { o.Cancel = k; return o }
+		cs = append(cs, cCase{Family: "plugin-context-cancelled-midway", WindowMs: 20000, MinConf: 0, Plugin: true, Ws: five, Ops: []cOp{
+			cx(1, flt("acceptrep", cItem{0, 10}, cItem{1, 10}, cItem{2, 10})), tr(0, 10), tr(1, 10), tr(2, 10),
+			cx(1, flt("transmitrep", cItem{3, 7}, cItem{0, 10})), cx(2, flt("transmitrep", cItem{3, 7}, cItem{4, 7}, cItem{1, 10})),
+			cx(2, flt("acceptrep", cItem{0, 10}, cItem{1, 9}, cItem{3, 12}, cItem{4, 12})), tr(3, 12), tr(4, 12),
+			cx(3, flt("acceptrep", cItem{0, 11}, cItem{1, 11}, cItem{2, 11})), flt("transmitrep", cItem{2, 11}), flt("transmitrep", cItem{0, 11}, cItem{1, 11})}})
+	}
 	cs = append(cs, cCase{Family: "plugin-restart", WindowMs: 3000, MinConf: 1, Plugin: true, Ws: three, Ops: []cOp{
 		flt("acceptrep", cItem{0, 5}, cItem{1, 5}), tr(0, 5), {Kind: "restart"}, flt("transmitrep", cItem{0, 5}, cItem{1, 5}), flt("acceptrep", cItem{1, 5}), flt("transmitrep", cItem{0, 5}, cItem{1, 5})}})
 	return cs
@@ -955,7 +1002,11 @@ func randomCase(r *Rng, emphasizeFilters bool) cCase {
 					cur[x] = b
 				}
 			}
-			c.Ops = append(c.Ops, flt(kind, its...))
+			o := flt(kind, its...)
+			if c.Plugin && len(its) >= 2 && r.Chance(1, 4) {
+				o.Cancel = 1 + r.Intn(len(its))
+			}
+			c.Ops = append(c.Ops, o)
 		case k < 56:
 			var batch []cEvent
 			for i := 0; i < 1+r.Intn(3); i++ {
